@@ -81,14 +81,25 @@ pub fn gen_c15(seed: u64, thorough: bool) -> Plan {
         // next to the flows, one to three applications leave a local handshake unfinished (and close, or just stay): their
         // sockets and tasks are released as well - at the client's handshake deadline at the latest
         let n = g.range(1, 3);
-        let list: Vec<(Vec<u8>, bool)> = (0..n)
+        let list: Vec<(Vec<u8>, bool, bool)> = (0..n)
             .map(|_| {
+                if transport != Transport::Quic && g.chance(30) {
+                    // a peer of the server: the beginning of a TLS hello / an upgrade request / a protocol handshake, then it closes
+                    let k = g.range(0, 90) as usize;
+                    let bytes: Vec<u8> = match g.below(4) {
+                        0 => vec![0x16, 0x03, 0x01, 0x02, 0x00, 0x01, 0x00, 0x01, 0xfc, 0x03, 0x03, 0x55, 0x66],
+                        1 => b"GET /ws HTTP/1.1\r\nHost: sim.test\r\nUpgrade: websocket\r\n".to_vec(),
+                        2 => Vec::new(),
+                        _ => g.bytes(k),
+                    };
+                    return (bytes, true, true);
+                }
                 let bytes: Vec<u8> = g.pick(&[
                     vec![], vec![5u8], vec![5, 1], vec![5, 1, 0, 5, 1, 0, 1, 127], vec![5, 1, 0, 5, 1, 0, 3, 40, b'a', b'b'],
                     b"GET http://exa".to_vec(), b"GET http://example.com/ind".to_vec(), b"CONNECT a.b:1 HTTP/1.1\r\nHost: a.b".to_vec(), b"POST http://h.test/x HTTP/1.1\r\nHost: h.test\r\nContent-Le".to_vec(),
                     vec![0x16, 0x03, 0x01, 0x02, 0x00, 0x01, 0x00, 0x01, 0xfc, 0x03, 0x03, 0x11, 0x22],
                 ]).clone();
-                (bytes, g.chance(60))
+                (bytes, g.chance(60), false)
             })
             .collect();
         serde_json::json!({ "abandoned_handshakes": list })
